@@ -30,10 +30,10 @@ names, whose local assignments count for the declared scope). -/
 theorem goto_exact_local (p : Prog) (u : Nat) (o : Occ) (ho : p.occs[u]? = some o)
     (hr : o.role = .use)
     (hk : p.kind o.scope = .function ∨ p.kind o.scope = .lambda ∨ p.kind o.scope = .klass)
-    (hne : defsIn p o.scope o.name (some u) ≠ []) :
-    goto p u = lastOf (defsIn p o.scope o.name (some u)) ∧
+    (hne : defsIn p o.scope o.name (some o.stmt) ≠ []) :
+    goto p u = lastOf (defsIn p o.scope o.name (some o.stmt)) ∧
     ∀ d ∈ goto p u, varOf p d = varOf p u := by
-  have hg : goto p u = lastOf (defsIn p o.scope o.name (some u)) := by
+  have hg : goto p u = lastOf (defsIn p o.scope o.name (some o.stmt)) := by
     unfold goto
     rw [ho]
     simp only [hr, Role.isDef, Bool.false_eq_true, if_false]
@@ -44,7 +44,7 @@ theorem goto_exact_local (p : Prog) (u : Nat) (o : Occ) (ho : p.occs[u]? = some 
   intro d hd
   rw [hg] at hd
   have hmem := mem_lastOf hd
-  obtain ⟨od, hod, hn, hs, hdef, -⟩ := (mem_defsIn p o.scope o.name (some u) d).mp hmem
+  obtain ⟨od, hod, hn, hs, hdef, -⟩ := (mem_defsIn p o.scope o.name (some o.stmt) d).mp hmem
   rw [varOf_of_def hod hdef, varOf_of_use ho hr, hn, hs]
   exact (ownerOfUse_eq_of_local_def hmem).symm
 
@@ -102,7 +102,7 @@ theorem goto_module_use (p : Prog) (hwf : WF p = true) (u : Nat) (o : Occ)
   rw [hs, hk0] at hd
   simp only at hd
   rcases List.mem_append.mp hd with h | h
-  · obtain ⟨od, hod, hn, hsc, hdef, -⟩ := (mem_defsIn p 0 o.name (some u) d).mp (mem_lastOf h)
+  · obtain ⟨od, hod, hn, hsc, hdef, -⟩ := (mem_defsIn p 0 o.name (some o.stmt) d).mp (mem_lastOf h)
     rw [varOf_of_def hod hdef, hsc]
     simp [ownerOfBinding, hk0]
   · obtain ⟨od, hod, hn, hrole⟩ := (mem_globalDecls p o.name d).mp h
@@ -121,7 +121,7 @@ open Kind Role in
 the comprehension's `a` is the module's (class scopes are invisible), jedi lands on `K.a` (F10) -/
 def witnessCompInClass : Prog :=
   { scopes := [⟨module, 0⟩, ⟨klass, 0⟩, ⟨comp, 1⟩],
-    occs := [⟨0, bind, 0⟩, ⟨1, defName, 0⟩, ⟨0, bind, 1⟩, ⟨0, use, 2⟩, ⟨2, bind, 2⟩] }
+    occs := [⟨0, bind, 0, 0⟩, ⟨1, defName, 0, 1⟩, ⟨0, bind, 1, 2⟩, ⟨0, use, 2, 3⟩, ⟨2, bind, 2, 4⟩] }
 
 theorem comp_in_class_body_witness :
     WF witnessCompInClass = true ∧ goto witnessCompInClass 3 = [2] ∧
@@ -132,7 +132,7 @@ open Kind Role in
 Python reads the module's `a`, jedi lands on `K.a` -/
 def witnessNestedClass : Prog :=
   { scopes := [⟨module, 0⟩, ⟨klass, 0⟩, ⟨klass, 1⟩],
-    occs := [⟨0, bind, 0⟩, ⟨1, defName, 0⟩, ⟨0, bind, 1⟩, ⟨2, defName, 1⟩, ⟨0, use, 2⟩] }
+    occs := [⟨0, bind, 0, 0⟩, ⟨1, defName, 0, 1⟩, ⟨0, bind, 1, 2⟩, ⟨2, defName, 1, 3⟩, ⟨0, use, 2, 4⟩] }
 
 theorem nested_class_witness :
     WF witnessNestedClass = true ∧ goto witnessNestedClass 4 = [2] ∧
@@ -144,8 +144,7 @@ open Kind Role in
 the module's `a`; jedi lands on `f`'s local -/
 def witnessClassLoadName : Prog :=
   { scopes := [⟨module, 0⟩, ⟨function, 0⟩, ⟨klass, 1⟩],
-    occs := [⟨0, bind, 0⟩, ⟨1, defName, 0⟩, ⟨0, bind, 1⟩, ⟨2, defName, 1⟩, ⟨0, use, 2⟩,
-             ⟨0, bind, 2⟩, ⟨1, use, 0⟩] }
+    occs := [⟨0, bind, 0, 0⟩, ⟨1, defName, 0, 1⟩, ⟨0, bind, 1, 2⟩, ⟨2, defName, 1, 3⟩, ⟨0, use, 2, 4⟩, ⟨0, bind, 2, 5⟩, ⟨1, use, 0, 6⟩] }
 
 theorem class_load_name_witness :
     WF witnessClassLoadName = true ∧ goto witnessClassLoadName 4 = [2] ∧
@@ -156,8 +155,7 @@ open Kind Role in
 the use reads the module's `a`; jedi finds nothing in `g`, climbs to `f` and lands on `f`'s local -/
 def witnessGlobalShadow : Prog :=
   { scopes := [⟨module, 0⟩, ⟨function, 0⟩, ⟨function, 1⟩],
-    occs := [⟨0, bind, 0⟩, ⟨1, defName, 0⟩, ⟨0, bind, 1⟩, ⟨2, defName, 1⟩, ⟨0, globalDecl, 2⟩,
-             ⟨0, use, 2⟩, ⟨2, use, 1⟩, ⟨1, use, 0⟩] }
+    occs := [⟨0, bind, 0, 0⟩, ⟨1, defName, 0, 1⟩, ⟨0, bind, 1, 2⟩, ⟨2, defName, 1, 3⟩, ⟨0, globalDecl, 2, 4⟩, ⟨0, use, 2, 5⟩, ⟨2, use, 1, 6⟩, ⟨1, use, 0, 7⟩] }
 
 theorem global_shadow_witness :
     WF witnessGlobalShadow = true ∧ goto witnessGlobalShadow 5 = [2] ∧
@@ -168,7 +166,7 @@ theorem global_shadow_witness :
 open Kind Role in
 /-- `def f(a):` / `    a = 0` / `    a` — hypotheses of `goto_exact_local` hold, landing = the assignment -/
 example : let p : Prog := { scopes := [⟨module, 0⟩, ⟨function, 0⟩],
-                            occs := [⟨1, defName, 0⟩, ⟨0, param, 1⟩, ⟨0, bind, 1⟩, ⟨0, use, 1⟩] }
+                            occs := [⟨1, defName, 0, 0⟩, ⟨0, param, 1, 1⟩, ⟨0, bind, 1, 2⟩, ⟨0, use, 1, 3⟩] }
     WF p = true ∧ defsIn p 1 0 (some 3) ≠ [] ∧ goto p 3 = [2] := by decide
 
 end JediModel.Props.C03
